@@ -21,7 +21,8 @@ OBLIGATIONS = ['PGA.Yaml.' + t for t in [
     'C12_wrong_dimension_temperature_rejected', 'C12_F12_old_shortcut_not_plain',
     # C12 <- C10 (PGA/Props/C12Units.lean): every row of the loader model's unit table is what the C10 model of eval_qty computes
     'C12_tab_units_from_units_model', 'C12_tab_units_exact', 'C12_tab_rounded_units_minimal', 'C12_tab_gas_constant_from_units_model',
-    'C12_tab_units_from_si_reference', 'C12_tab_units_si_exact', 'C12_tab_gas_constant_from_si_reference']]
+    'C12_tab_units_from_si_reference', 'C12_tab_units_from_ext_reference', 'C12_tab_units_si_exact',
+    'C12_tab_gas_constant_from_si_reference']]
 RULE = ('a case = one synthetic library (1-4 groups; per group reference temperature given/defaulted, reference enthalpy and '
         'entropy present/absent/zero/negative, 0-8 heat-capacity points incl. zeros, range present/absent) written in one unit '
         'presentation (file-level default units for any subset of the four kinds, per-value explicit unit strings with '
